@@ -21,6 +21,12 @@ that mentions it):
     loop-carried variables (those assigned in the body and defined before the loop); it answers
     `.next <carried>` when the loop is left normally or by `break`, `.ret <result>` for a `return` inside the loop;
     `while c: B` = `while True: if c: B else: break`; `for v in range(..)` carries the counter;
+  * a kernel that cannot be translated is NOT dropped from the file: it becomes a stub of the same signature whose body is
+    `none` (marked `NOT TRANSLATED: <reason>`), so that the native driver (which links `Driver/GenK.lean`, hence this file,
+    for every property) still builds while every refinement / memory-safety theorem about that kernel becomes unprovable
+    (`none = some ..`) and the executed comparison reports `oob`;
+  * identifiers are checked: a Python name that is a Lean keyword, a name of the prelude (`fuel`, `rd`, `wr`, `take`, ...) or
+    contains `__` (reserved for the translator's temporaries) would otherwise be captured / shadow silently -> `Unsupported`;
   * `x and y` / `x or y` in a condition become nested `if`s (short-circuit evaluation is what keeps the loads in
     bounds); integer locals are unbounded `Int` (numba's uint16 cursors wrap at 65536: rows shorter than that, as
     everywhere else in this framework).
@@ -56,6 +62,29 @@ MUTATING = {}     # translated kernel name -> Fn (for calls from later kernels)
 
 class Unsupported(Exception):
     pass
+
+
+# names a Python identifier must not have: it would be a Lean syntax error (the whole file, hence the driver, would stop
+# building) or silently capture / shadow something of the translation scheme (a mistranslation)
+LEAN_RESERVED = set("""
+abbrev at attribute axiom by calc class deriving do else end example export extends for from fun have if import in
+infix infixl infixr instance let macro match mutual namespace noncomputable notation open partial postfix prefix private
+protected return section set_option show structure suffices syntax termination_by decreasing_by then theorem universe unless
+using variable where with
+fuel rd wr wr2 wrPrefix ncols take zeros pure none some true false P Int Nat Array Option Unit Bool Type Prop Sort LoopOut
+next ret
+""".split())
+
+
+def check_identifiers(fdef, kernel_names):
+    """called on the source AST, before tuple parameters are flattened / aliases renamed"""
+    callees = {id(n.func) for n in ast.walk(fdef) if isinstance(n, ast.Call) and isinstance(n.func, ast.Name) and n.func.id in kernel_names}
+    names = {a.arg for a in fdef.args.args} | {n.id for n in ast.walk(fdef) if isinstance(n, ast.Name) and id(n) not in callees}
+    for x in sorted(names):
+        if x in ("np", "numba", "range", "len"):
+            continue        # module names and builtins the translation scheme knows
+        if x in LEAN_RESERVED or "__" in x or x in kernel_names or not x.isidentifier() or not x.isascii():
+            raise Unsupported("identifier %r is reserved in the translation" % x)
 
 
 def lean_ty(t):
@@ -180,6 +209,7 @@ class Fn:
         got = [a.arg for a in fdef.args.args]
         if got != list(ptypes):
             raise Unsupported("parameter list changed: %s" % got)
+        check_identifiers(fdef, {k[1] for k in KERNELS})
         flat = {}
         for prm, t in ptypes.items():
             if isinstance(t, tuple):
@@ -588,6 +618,31 @@ variable {{P : Type}} [LE P] [LT P] [DecidableLE P] [DecidableLT P] [DecidableEq
 '''
 
 
+def stub(fname, kname, ptypes, ret, why):
+    """same signature as the translation would have (tuple parameters flattened, stored-into arrays per STUB_MUT), body
+    `none`: keeps the driver building, makes every theorem that says the kernel returns `some ..` unprovable"""
+    flat = {}
+    for prm, t in ptypes.items():
+        if isinstance(t, tuple):
+            for k, tk in enumerate(t):
+                flat["%s_%d" % (prm, k)] = tk
+        else:
+            flat[prm] = t
+    r = ret if isinstance(ret, tuple) else () if ret == "Unit" else (ret,)
+    parts = tuple(flat[m] for m in STUB_MUT[kname]) + tuple(r)
+    sig = " ".join("(%s : %s)" % (p, LEAN_TY[t]) for p, t in flat.items())
+    return ("/-- `%s.%s` NOT TRANSLATED: %s -/\ndef %s (fuel : Nat) %s : Option (%s) := none\n"
+            % (fname[:-3], kname, why.replace("-/", "- /"), kname, sig, lean_ty(parts)))
+
+
+# arrays each kernel stores into, in parameter order (only used for the signature of a stub)
+STUB_MUT = {"simple_heap_push": ["priorities", "indices"], "checked_heap_push": ["priorities", "indices"],
+            "checked_flagged_heap_push": ["priorities", "indices", "flags"], "siftdown": ["heap1", "heap2"],
+            "fast_intersection_size": [], "sparse_sum": [], "sparse_mul": [], "sparse_dot_product": [],
+            "deheap_sort": ["indices", "distances"],
+            "apply_graph_updates_low_memory": ["current_graph_0", "current_graph_1", "current_graph_2"]}
+
+
 def find_def(tree, name):
     for n in tree.body:
         if isinstance(n, ast.FunctionDef) and n.name == name:
@@ -612,7 +667,7 @@ def main():
             parts.append("/-- `%s.%s` -/\n" % (fname[:-3], kname) + text + "\n")
             report.append((kname, "ok"))
         except Unsupported as e:
-            parts.append("/- `%s.%s` NOT TRANSLATED: %s -/\n" % (fname[:-3], kname, str(e).replace("-/", "- /")))
+            parts.append(stub(fname, kname, ptypes, ret, str(e)))
             report.append((kname, "unsupported: %s" % e))
     parts.append("end Pynn.GenK\n")
     text = "\n".join(parts)
